@@ -138,3 +138,5 @@ def run(ck):
     ck.run_rule("C03.R7", "LinearPolynomial algebra keeps the base linear (cancellation)", 18, c03.rule_R7)
     from . import c01
     ck.run_rule("C01.T5", "index words of 'a-b(r)' operands are the expression as written (a difference of labels stays base-free)", 8, c01.rule_T5)
+    from ..rules import treeimm
+    ck.run_rule("G4.re", "a tree compiled at a second base yields the second base's values (no value of the first compilation survives on a node)", 15, treeimm.rule_reresolve)
